@@ -105,6 +105,56 @@ pub fn classify_h<S: Src>(s: &mut S, n: i8, x0: Option<i8>, covers: bool) {
     }
 }
 
+/// Cheap slices for the quick tier (the full classification harness needs ~20 min of SAT time on
+/// these float circuits).  `kind` 0: all four end points on the x axis (collinear case analysis:
+/// overlap / abutting / disjoint / containment); 1: all four on the diagonal y = x;
+/// 2: a horizontal against a vertical segment (crossing, T-junction, corner touch, miss);
+/// 3: all four on the y axis.
+pub fn slice_h<S: Src>(s: &mut S, n: i8, kind: u8) {
+    let (t1, t2, t3, t4) = (s.range(-n, n) as W, s.range(-n, n) as W, s.range(-n, n) as W, s.range(-n, n) as W);
+    let (a, b, c, d): (P, P, P, P) = match kind {
+        0 => ((t1, 0), (t2, 0), (t3, 0), (t4, 0)),
+        1 => ((t1, t1), (t2, t2), (t3, t3), (t4, t4)),
+        3 => ((0, t1), (0, t2), (0, t3), (0, t4)),
+        _ => ((t1, 0), (t2, 0), (1, t3), (1, t4)),
+    };
+    vassume!(a != b && c != d);
+    let (p, q) = (line_f(a, b), line_f(c, d));
+    let got = line_intersection(p, q);
+    let want = classify(a, b, c, d);
+    match want {
+        Kind::None => assert!(got.is_none(), "line_intersection reports a point for segments that share none"),
+        Kind::Proper => match got {
+            Some(LineIntersection::SinglePoint { intersection, is_proper: true }) => {
+                // horizontal x vertical: the crossing is the lattice point (1, 0)
+                assert!((intersection.x - 1.0).abs() <= 0.0001 && intersection.y.abs() <= 0.0001, "proper crossing of an axis-parallel pair is not at the exact crossing point");
+            }
+            _ => assert!(false, "crossing interior to both segments is not reported as a proper SinglePoint"),
+        },
+        Kind::Improper(e) => match got {
+            Some(LineIntersection::SinglePoint { intersection, is_proper }) => {
+                assert!(!is_proper, "a touching point is flagged proper");
+                assert!(intersection == cf(e), "improper intersection is not bit-identical to the end point involved");
+            }
+            _ => assert!(false, "segments touching in exactly one point are not reported as an improper SinglePoint"),
+        },
+        Kind::Overlap(lo, hi) => match got {
+            Some(LineIntersection::Collinear { intersection }) => {
+                let (s0, e0) = (intersection.start, intersection.end);
+                assert!((s0 == cf(lo) && e0 == cf(hi)) || (s0 == cf(hi) && e0 == cf(lo)), "Collinear payload is not the exact shared sub-segment");
+            }
+            _ => assert!(false, "collinear segments overlapping in more than a point are not reported as Collinear"),
+        },
+    }
+    let swapped = line_intersection(q, p);
+    assert!(same_up_to_direction(got, swapped), "classification / end point / overlap depends on the order of the segments");
+    if kind != 2 {
+        vcover!(matches!(want, Kind::Improper(_)), "collinear segments abutting in one point");
+    } else {
+        vcover!(want == Kind::Proper, "proper crossing");
+    }
+}
+
 /// proper point: inside both bounding boxes and close to the exact crossing
 pub fn proper_point<S: Src>(s: &mut S, n: i8, x0: Option<i8>) {
     let (a, b, c, d) = segs(s, n, x0);
@@ -202,6 +252,10 @@ pub fn illcond_h<S: Src>(s: &mut S) {
 }
 
 harnesses! {
+    #[kani::stub(robust::orient2d, crate::stubs::orient2d_small)] #[kani::stub(f32::hypot, crate::stubs::hypot_f32)] fn c11_slice_xaxis_g4(s) { slice_h(s, 4, 0) }
+    #[kani::stub(robust::orient2d, crate::stubs::orient2d_small)] #[kani::stub(f32::hypot, crate::stubs::hypot_f32)] fn c11_slice_yaxis_g4(s) { slice_h(s, 4, 3) }
+    #[kani::stub(robust::orient2d, crate::stubs::orient2d_small)] #[kani::stub(f32::hypot, crate::stubs::hypot_f32)] fn c11_slice_diagonal_g4(s) { slice_h(s, 4, 1) }
+    #[kani::stub(robust::orient2d, crate::stubs::orient2d_small)] #[kani::stub(f32::hypot, crate::stubs::hypot_f32)] fn c11_slice_axis_cross_g4(s) { slice_h(s, 4, 2) }
     #[kani::stub(robust::orient2d, crate::stubs::orient2d_exact)] #[kani::stub(f64::hypot, crate::stubs::hypot_f64)] fn c11_illcond_f64(s) { illcond_h(s) }
     #[kani::stub(robust::orient2d, crate::stubs::orient2d_small)] #[kani::stub(f32::hypot, crate::stubs::hypot_f32)] fn c11_classify_g1(s) { classify_h(s, 1, None, false) }
     #[kani::stub(robust::orient2d, crate::stubs::orient2d_small)] #[kani::stub(f32::hypot, crate::stubs::hypot_f32)] fn c11_classify_g1_witnessed(s) { classify_h(s, 1, None, true) }
@@ -218,7 +272,7 @@ harnesses! {
     #[kani::stub(robust::orient2d, crate::stubs::orient2d_small)] #[kani::stub(f32::hypot, crate::stubs::hypot_f32)] fn c11_order_g2_x2(s) { order_h(s, 2, Some(0)) }
     #[kani::stub(robust::orient2d, crate::stubs::orient2d_small)] #[kani::stub(f32::hypot, crate::stubs::hypot_f32)] fn c11_degenerate_g2(s) { degenerate_h(s, 2) }
     #[kani::stub(robust::orient2d, crate::stubs::orient2d_small)] #[kani::stub(f32::hypot, crate::stubs::hypot_f32)] fn c11_sanity_must_fail(s) {
-        degenerate_h(s, 1);
+        slice_h(s, 1, 0);
         assert!(false, "sanity twin reached its end");
     }
 }
